@@ -293,6 +293,9 @@ class Term:
         keys = [self.tkey, self.ckey]
         if self.ckey == "core::mem::take" and (self.gargs or "").startswith("[core::option::Option<"):
             keys.append("core::option::Option::take")        # mem::take(&mut opt) is opt.take()
+        if self.ckey in ("<T as core::convert::Into<U>>::into", "<T as core::convert::TryInto<U>>::try_into"):
+            from . import flow as _flow
+            keys.append(_flow.into_to_from(self))              # `.into()` names the From impl it forwards to (and its alias)
         for k in keys:
             for n in names:
                 if k == n or k.endswith("::" + n) or k.endswith(n):
@@ -764,6 +767,17 @@ def normalise_renames(data, known, kfields, log=None):
         back = [k2 for k2 in left_missing if crate(k2) == crate(k) and known[k2] == sig]
         if len(cand) == 1 and len(back) == 1:
             alias[cand[0]] = k
+    # third pass: a private helper whose signature was changed (a `&mut self` method turned into a free function over the fields it
+    # uses, or the reverse) keeps its NAME: a missing reference function and exactly one unknown function of the same crate with
+    # the same last path segment are the same helper. The rules then look at its new body under the name they know.
+    left_missing = [k for k in missing if k not in alias.values()]
+    left_new = [n for n in new if n not in alias]
+    last = lambda k: k.rsplit("::", 1)[-1]
+    for k in left_missing:
+        cand = [n for n in left_new if crate(n) == crate(k) and last(n) == last(k)]
+        back = [k2 for k2 in left_missing if crate(k2) == crate(k) and last(k2) == last(k)]
+        if len(cand) == 1 and len(back) == 1 and not last(k).startswith(("new", "from", "into", "default", "fmt", "clone", "drop")):
+            alias[cand[0]] = k
     # parameters of a known function given in another order (all parameter types distinct): locals and call arguments are permuted back
     perm = {}
     for k, bj in present.items():
@@ -861,7 +875,228 @@ def _remap(j, nl, nb, file):
     return out
 
 
-def inline_new_helpers(data, known, log=None):
+def body_hash(bj):
+    """Content hash of a body that does not depend on where it stands in the file or on its own name."""
+    import hashlib
+    import json as _json
+
+    def strip(x):
+        if isinstance(x, dict):
+            return {k: strip(v) for k, v in x.items() if k not in ("ln", "col", "file", "mac", "line", "hi_line", "id", "parent", "vars", "reach", "pub")}
+        if isinstance(x, list):
+            return [strip(v) for v in x]
+        return x
+    s = _json.dumps(strip(bj), sort_keys=True)
+    s = re.sub(r"@[^ {}]*:\d+:\d+: \d+:\d+", "@", s)
+    s = s.replace(bj["id"]["key"], "<self>")
+    return hashlib.sha1(s.encode()).hexdigest()[:16]
+
+
+def _known_closures(config):
+    p = os.path.join(_TABLES, "known_closures.txt")
+    out = {}
+    if os.path.exists(p) and config:
+        for ln in open(p).read().split("\n"):
+            x = ln.split("\t")
+            if len(x) == 3 and x[0] == config:
+                out[x[1]] = x[2]
+    return out
+
+
+def normalise_closures(data, kclos, log=None):
+    """Closures are numbered in source order, so adding or removing one renumbers its siblings. Within each parent function
+    the closures of the analysed tree are matched to those of the reference tree by content: a match takes the reference key,
+    a closure without a match gets a key no rule can know (`{closure#new<N>}`) - it is then treated like any unknown helper."""
+    if not kclos:
+        return
+    cre = re.compile(r"^(.*)::\{closure#(\d+)\}$")
+    ren = {}
+    for c, d in data.items():
+        by_parent = {}
+        for bj in d["bodies"]:
+            mm = cre.match(bj["id"]["key"])
+            if mm:
+                by_parent.setdefault(mm.group(1), []).append(bj)
+        for parent, bodies in by_parent.items():
+            ref = {k: h for k, h in kclos.items() if cre.match(k) and cre.match(k).group(1) == parent}
+            if not ref:
+                continue
+            cur = {bj["id"]["key"]: body_hash(bj) for bj in bodies}
+            if len(cur) == len(ref) or all(ref.get(k) == h for k, h in cur.items()):
+                continue            # same number of closures: nothing was renumbered (a closure whose content changed keeps its key)
+            byh = {}
+            for k, h in ref.items():
+                byh.setdefault(h, []).append(k)
+            used, plan = set(), {}
+            for k in sorted(cur, key=lambda s: int(cre.match(s).group(2))):
+                cand = sorted(r for r in byh.get(cur[k], []) if r not in used)
+                if cand:
+                    plan[k] = cand[0]
+                    used.add(cand[0])
+            left_cur = [k for k in cur if k not in plan]
+            left_ref = [k for k in ref if k not in used]
+            if left_ref:
+                continue            # a reference closure changed AND the numbering moved: ambiguous, leave the keys alone
+            fresh = 0
+            for k in sorted(left_cur):
+                plan[k] = "%s::{closure#new%d}" % (parent, fresh)
+                fresh += 1
+            for k, tgt in plan.items():
+                if tgt != k:
+                    ren[k] = tgt
+    if not ren:
+        return
+    if log is not None:
+        log.extend(("closure", k, v) for k, v in sorted(ren.items()))
+    keys = sorted(ren, key=len, reverse=True)
+
+    def r1(s):
+        if s in ren:
+            return ren[s]
+        for k in keys:
+            if s.startswith(k + "::"):
+                return ren[k] + s[len(k):]
+        return s
+
+    def walk(x):
+        if isinstance(x, dict):
+            for kk, v in list(x.items()):
+                if kk in ("key", "parent", "def", "owner", "path") and isinstance(v, str):
+                    x[kk] = r1(v)
+                else:
+                    walk(v)
+        elif isinstance(x, list):
+            for v in x:
+                walk(v)
+    walk(data)
+
+
+_OPT, _RES, _POLL = "core::option::Option", "core::result::Result", "core::task::poll::Poll"
+_VIDX = {(_OPT, "None"): 0, (_OPT, "Some"): 1, (_RES, "Ok"): 0, (_RES, "Err"): 1, (_POLL, "Ready"): 0, (_POLL, "Pending"): 1}
+# adapter -> (receiver adt, variant on which the closure runs, closure takes the payload?, index of the closure argument,
+#             what becomes of the closure's result, what the other variant gives)
+_ADAPTERS = {
+    (_OPT, "is_some_and"): ("Some", True, 1, "ret", "const:false"), (_OPT, "is_none_or"): ("Some", True, 1, "ret", "const:true"),
+    (_RES, "is_ok_and"): ("Ok", True, 1, "ret", "const:false"), (_RES, "is_err_and"): ("Err", True, 1, "ret", "const:false"),
+    (_OPT, "map"): ("Some", True, 1, "wrap:Some", "none"), (_RES, "map"): ("Ok", True, 1, "wrap:Ok", "same"),
+    (_RES, "map_err"): ("Err", True, 1, "wrap:Err", "same"),
+    (_OPT, "and_then"): ("Some", True, 1, "ret", "none"), (_RES, "and_then"): ("Ok", True, 1, "ret", "same"),
+    (_OPT, "map_or"): ("Some", True, 2, "ret", "arg1"), (_RES, "map_or"): ("Ok", True, 2, "ret", "arg1"),
+    (_OPT, "unwrap_or_else"): ("None", False, 1, "ret", "payload:Some"), (_RES, "unwrap_or_else"): ("Err", True, 1, "ret", "payload:Ok"),
+    (_OPT, "ok_or_else"): ("None", False, 1, "wrap:Err", "okpayload"),
+    (_OPT, "or_else"): ("None", False, 1, "ret", "same"), (_RES, "or_else"): ("Err", True, 1, "ret", "same"),
+    (_POLL, "map"): ("Ready", True, 1, "wrap:Ready", "same"),
+}
+
+
+def _adapter_of(t):
+    c = t.get("callee") or {}
+    k, n = c.get("key") or "", c.get("name")
+    for adt in (_OPT, _RES, _POLL):
+        if k.startswith(adt + "::") or k.startswith(adt + "<"):
+            if k.startswith(_POLL + "<") and "Result" in k:
+                return None                  # Poll<Result<..>>::map_ok / map_err: two levels, left to the library model
+            return (adt, n) if (adt, n) in _ADAPTERS else None
+    return None
+
+
+def desugar_adapters(data, known, log=None):
+    """`x.is_some_and(|v| ..)`, `x.map_or(d, |v| ..)`, `r.map_err(|e| ..)`, `o.unwrap_or_else(|| ..)` ... with a closure the rule
+    vocabulary does not know are rewritten into what they mean - a switch on the receiver's variant and a direct call of the closure
+    on the payload - so that the closure's code is then expanded in place like any unknown helper (inline_new_helpers) and every
+    analysis sees the explicit `match` the combinator stands for. Closures of the reference tree keep the library model."""
+    expanded = set()
+    if not known:
+        return expanded
+    for c, d in data.items():
+        bodies = {bj["id"]["key"]: bj for bj in d["bodies"]}
+        for bj in d["bodies"]:
+            # single-definition closure locals of this body
+            cdef = {}
+            for blk in bj["blocks"]:
+                for s in blk["stmts"]:
+                    v = s.get("v") or {}
+                    if s.get("s") == "assign" and v.get("rv") == "aggregate" and v.get("agg") == "closure" and not s["p"].get("pr"):
+                        cdef.setdefault(s["p"]["l"], []).append(v.get("def"))
+            i = 0
+            while i < len(bj["blocks"]) and len(bj["blocks"]) < 4000:
+                t = bj["blocks"][i]["term"]
+                i += 1
+                if t["t"] != "call":
+                    continue
+                ad = _adapter_of(t)
+                if not ad:
+                    continue
+                variant, with_payload, ci, mode, other = _ADAPTERS[ad]
+                args = t["args"]
+                if len(args) <= ci or args[ci].get("k") not in ("move", "copy") or args[ci]["p"].get("pr"):
+                    continue
+                ckeys = cdef.get(args[ci]["p"]["l"], [])
+                if len(ckeys) != 1 or ckeys[0] in known or ckeys[0] not in bodies:
+                    continue
+                cb = bodies[ckeys[0]]
+                if cb["coroutine"] or cb["arg_count"] != (2 if with_payload else 1) or args[0].get("k") not in ("move", "copy"):
+                    continue
+                adt = ad[0]
+                x = args[0]["p"]
+                pos = {kk: t[kk] for kk in ("ln", "col", "file") if kk in t}
+                tgt = t.get("target")
+                if not isinstance(tgt, int) or tgt < 0:
+                    continue
+                nl = len(bj["locals"])
+                bj["locals"] = bj["locals"] + [{"ty": "isize"}, {"ty": "?"}]
+                dl, rl = nl, nl + 1
+                nb = len(bj["blocks"])
+                b_run, b_other, b_wrap = nb, nb + 1, nb + 2
+
+                def payload(vname):
+                    return {"l": x["l"], "pr": list(x.get("pr", [])) + [{"v": _VIDX[(adt, vname)], "n": vname}, {"f": 0, "n": "0"}]}
+
+                def assign(place, rv):
+                    return dict({"s": "assign", "p": place, "v": rv}, **pos)
+
+                def agg(a, vname, ops):
+                    return {"rv": "aggregate", "agg": "adt", "adt": a, "variant": vname, "vidx": _VIDX[(a, vname)], "fields": ["0"][:len(ops)], "ops": ops}
+                blk = bj["blocks"][i - 1]
+                blk["stmts"].append(assign({"l": dl}, {"rv": "discr", "p": x}))
+                blk["term"] = dict({"t": "switch", "op": {"k": "move", "p": {"l": dl}}, "targets": [[str(_VIDX[(adt, variant)]), b_run]], "otherwise": b_other}, **pos)
+                cargs = [args[ci]] + ([{"k": "move", "p": payload(variant)}] if with_payload else [])
+                run = {"cleanup": False, "stmts": [], "term": dict({"t": "call", "callee": {"path": ckeys[0], "key": ckeys[0], "name": ckeys[0].rsplit("::", 2)[-2] if "::" in ckeys[0] else ckeys[0],
+                                                                                                "self_ty": None, "self_adt": None, "trait": None, "trait_args": [], "krate": c},
+                                                                       "gargs": "[]", "resolved_same": True, "args": cargs, "dest": {"l": rl}, "target": b_wrap}, **pos)}
+                if mode == "ret":
+                    wrap_st = [assign(t["dest"], {"rv": "use", "op": {"k": "move", "p": {"l": rl}}})]
+                else:
+                    wv = mode.split(":")[1]
+                    inner = {"k": "move", "p": {"l": rl}}
+                    if adt == _OPT and wv == "Err":           # ok_or_else: Option -> Result
+                        wrap_st = [assign(t["dest"], agg(_RES, "Err", [inner]))]
+                    else:
+                        wrap_st = [assign(t["dest"], agg(adt, wv, [inner]))]
+                wrap = {"cleanup": False, "stmts": wrap_st, "term": dict({"t": "goto", "target": tgt}, **pos)}
+                if other.startswith("const:"):
+                    ost = [assign(t["dest"], {"rv": "use", "op": {"k": "const", "ty": "bool", "int": "1" if other.endswith("true") else "0", "size": 1, "s": other[6:]}})]
+                elif other == "same":
+                    ost = [assign(t["dest"], {"rv": "use", "op": {"k": "move", "p": x}})]
+                elif other == "none":
+                    ost = [assign(t["dest"], dict(agg(_OPT, "None", []), fields=[]))]
+                elif other == "arg1":
+                    ost = [assign(t["dest"], {"rv": "use", "op": args[1]})]
+                elif other.startswith("payload:"):
+                    ost = [assign(t["dest"], {"rv": "use", "op": {"k": "move", "p": payload(other.split(":")[1])}})]
+                elif other == "okpayload":
+                    ost = [assign(t["dest"], agg(_RES, "Ok", [{"k": "move", "p": payload("Some")}]))]
+                else:
+                    continue
+                oth = {"cleanup": False, "stmts": ost, "term": dict({"t": "goto", "target": tgt}, **pos)}
+                bj["blocks"] += [run, oth, wrap]
+                expanded.add(ckeys[0])
+                if log is not None:
+                    log.append((bj["id"]["key"], "%s::%s(%s)" % (adt.rsplit("::", 1)[-1], ad[1], ckeys[0].rsplit("::", 1)[-1])))
+    return expanded
+
+
+def inline_new_helpers(data, known, log=None, closures=()):
     """MIR-level inlining of helpers the rule vocabulary (tables/known_functions.txt) does not contain: the rules were written
     against the functions of the reference tree, so code moved into a NEW private helper is analysed where it is called, by
     every engine alike (paths, flow, panic sites, wake-ups). The helper's own body is dropped when every call was expanded."""
@@ -871,7 +1106,7 @@ def inline_new_helpers(data, known, log=None):
         by_key = {}
         for bj in d["bodies"]:
             by_key.setdefault(bj["id"]["key"], []).append(bj)
-        new = {k for k, v in by_key.items() if k not in known and "{closure" not in k and len(v) == 1 and not v[0]["coroutine"]}
+        new = {k for k, v in by_key.items() if k not in known and ("{closure" not in k or k in closures) and len(v) == 1 and not v[0]["coroutine"]}
         if not new:
             continue
         left = set()
@@ -926,8 +1161,15 @@ class Program:
         self.renamed = []
         cfg = self.info.get("config")
         normalise_consts(data, _known_consts(), self.renamed)
+        normalise_closures(data, _known_closures(cfg), self.renamed)
         normalise_renames(data, _known_functions(cfg) if cfg else {}, _known_fields(), self.renamed)
-        inline_new_helpers(data, set(_known_functions(None)), self.inlined)
+        # function aliases are also needed where a callee name is computed (Into -> From in engine/flow.py)
+        from . import flow as _flow
+        _flow.ALIAS.update({new: old for kind, new, old in self.renamed if kind == "fn"})
+        allk = set(_known_functions(None))
+        self.desugared = []
+        clos = desugar_adapters(data, allk, self.desugared)
+        inline_new_helpers(data, allk, self.inlined, clos)
         self.bodies = []
         self.by_key = defaultdict(list)
         self.adts = {}
